@@ -205,6 +205,16 @@ struct Shrinker {
       }
       // smaller layouts again after the AST shrank
       for (int nf = 1; nf < proj.layout.nfiles; nf++) { Layout keep = proj.layout; proj.layout.nfiles = nf; render(proj); if (test()) break; proj.layout = keep; render(proj); }
+      // layout-sensitive violations resist AST reduction (every reduction re-draws the layout): if the oracle does
+      // not need the AST, continue on the text itself
+      size_t bytes = 0;
+      for (auto &kv : proj.files) bytes += kv.second.size();
+      if (bytes > 100) {
+        Project keep = proj;
+        proj.has_ast = false;
+        if (test()) shrink_project(proj, test);
+        else proj = keep;
+      }
     } else {
       // raw files: drop files, then lines, then whitespace-separated words
       std::vector<std::string> names;
@@ -245,6 +255,13 @@ struct Shrinker {
       return p;
     }
     ddmin<Op>(p.ops, test);
+    if (p.world == "fs" && p.prop == "C02" && !p.ops.empty()) {
+      // turn the faults into plain text: what was delivered becomes the project
+      Plan m = materialise_fs_plan(p);
+      Plan keep = p;
+      p = m;
+      if (!test()) p = keep;
+    }
     for (auto &o : p.ops) {
       if (o.a > 1) { long long k = o.a; o.a = 1; if (!test()) { o.a = k / 2; if (o.a < 1 || !test()) o.a = k; } }
     }
